@@ -404,7 +404,7 @@ func c05TwoConfigs(tier string) []c05Two {
 	w1b := [][]wop{{wCreateX, wCreateOut, wCreateY}}
 	out := []c05Two{
 		{c05Prefix, false, "eager", w3, 1, false},
-		{"/r/w/x", false, "eager", w1b, 1, false},
+		{"/r/", false, "eager", w1b, 1, false}, // B watches a superset: a batch holds events A drops and B wants
 		{c05Prefix, false, "eager", w1b, 1, true},
 	}
 	if tier == "thorough" {
@@ -412,7 +412,8 @@ func c05TwoConfigs(tier string) []c05Two {
 			c05Two{c05Prefix, true, "eager", w3, 1, false},
 			c05Two{c05Prefix, false, "eager", w3, 1, true},
 			c05Two{c05Prefix, false, "stalled", w3, 1, false},
-			c05Two{"/r/", true, "eager", w1b, 1, false},
+			c05Two{"/r/w/x", false, "eager", w1b, 1, false},
+			c05Two{"/r/o/", true, "eager", w1b, 1, false},
 			c05Two{c05Prefix, false, "eager", [][]wop{{wCreateX, wUpdateX}, {wCreateY, wDupP}}, 2, false},
 		)
 	}
